@@ -47,7 +47,8 @@ CONSTANTS EmitOn,     \* TRUE: print SCHEMA / ROW lines (generation run)
           CutBound,   \* all-prefix check only for encodings up to this length
           ModelMut    \* "none"; "nosort" / "lenkey" are spec self-tests (a seeded model defect must be flagged)
 
-VARIABLES row
+VARIABLES row,   \* <<type index, row number, value>>; row number 0 = per-type start state
+          ana    \* the analysis of the row (reference bytes, accepted cuts, mutants with verdicts), computed once
 
 (* ------------------------------------------------------------------------ *)
 (* bytes                                                                    *)
@@ -301,18 +302,18 @@ EntrySites(t, s, i, off, path) ==
          ELSE Sites(t.item, s[i][2], off, Append(path, i)) \o
               EntrySites(t, s, i + 1, off + Len(EncK(t.item, s[i][2])), path)
 
-PrefixMutants(site) ==
+PrefixMutants(site) ==     \* a sequence (not a set: TLC would have to sort records holding long tuples)
     LET n == site.n
-        z == IF n # 0 THEN {[cls |-> "zero", pre |-> EncCount(site.c, 0)]} ELSE {}
-        m1 == IF n > 0 /\ n # 1 THEN {[cls |-> "minus1", pre |-> EncCount(site.c, n - 1)]} ELSE {}
-        p1 == {[cls |-> "plus1", pre |-> EncCount(site.c, n + 1)]}
-        nm == IF site.c = "varuint" /\ n < 253 THEN {[cls |-> "nonmin", pre |-> <<253, n, 0>>]} ELSE {}
-        ff == IF n # 65535 THEN {[cls |-> "ffff", pre |-> IF site.c = "u64" THEN N8(65535) ELSE <<253, 255, 255>>]} ELSE {}
-        mx == {[cls |-> "max", pre |-> IF site.c = "u64" THEN Rep(8, 255) ELSE Rep(9, 255)]}
+        z == IF n # 0 THEN <<[cls |-> "zero", pre |-> EncCount(site.c, 0)]>> ELSE <<>>
+        m1 == IF n > 0 /\ n # 1 THEN <<[cls |-> "minus1", pre |-> EncCount(site.c, n - 1)]>> ELSE <<>>
+        p1 == <<[cls |-> "plus1", pre |-> EncCount(site.c, n + 1)]>>
+        nm == IF site.c = "varuint" /\ n < 253 THEN <<[cls |-> "nonmin", pre |-> <<253, n, 0>>]>> ELSE <<>>
+        ff == IF n # 65535 THEN <<[cls |-> "ffff", pre |-> IF site.c = "u64" THEN N8(65535) ELSE <<253, 255, 255>>]>> ELSE <<>>
+        mx == <<[cls |-> "max", pre |-> IF site.c = "u64" THEN Rep(8, 255) ELSE Rep(9, 255)]>>
         g4 == IF site.kind = "count"          \* 2^32 entries: too small to overflow a size computation, far too many to exist
-              THEN {[cls |-> "g4", pre |-> IF site.c = "u64" THEN <<0, 0, 0, 0, 1, 0, 0, 0>> ELSE <<255, 0, 0, 0, 0, 1, 0, 0, 0>>]}
-              ELSE {}
-    IN z \cup m1 \cup p1 \cup nm \cup ff \cup mx \cup g4
+              THEN <<[cls |-> "g4", pre |-> IF site.c = "u64" THEN <<0, 0, 0, 0, 1, 0, 0, 0>> ELSE <<255, 0, 0, 0, 0, 1, 0, 0, 0>>]>>
+              ELSE <<>>
+    IN z \o m1 \o p1 \o nm \o ff \o mx \o g4
 
 Splice(b, site, pre) == SubSeq(b, 1, site.at - 1) \o pre \o SubSeq(b, site.at + site.w, Len(b))
 
@@ -321,10 +322,11 @@ Splice(b, site, pre) == SubSeq(b, 1, site.at - 1) \o pre \o SubSeq(b, site.at + 
 (* ------------------------------------------------------------------------ *)
 BytesMenu(s) == <<Fill(3, s), <<>>, <<0>>, Fill(252, s + 1), Fill(253, s + 2)>> \o
                 (IF Thorough THEN <<Fill(20, s + 3), Fill(254, s + 4)>> ELSE <<>>)
-StrKeys == <<<<97>>, <<97, 98>>, <<>>, <<98>>, <<255>>, <<97, 0>>, <<65>>>>                \* "a" "ab" "" "b" "\xff" "a\x00" "A"
+StrKeys == <<<<97>>, <<97, 98>>, <<98>>, <<>>, <<255>>, <<97, 0>>, <<65>>>>                \* "a" "ab" "b" "" "\xff" "a\x00" "A"
 NumKeys == <<N8(1), N8(256), N8(0), N8(255), <<0, 0, 0, 0, 1, 0, 0, 0>>, Rep(8, 255), N8(65536)>>
 AddrKey(first, last) == <<first>> \o Rep(18, 7) \o <<last>>
-AddrKeys == <<AddrKey(1, 2), AddrKey(2, 1), Rep(20, 0), Rep(20, 255), AddrKey(1, 1), AddrKey(0, 9), AddrKey(9, 0)>>
+(* neighbours share the first byte, then the last byte: a comparator that looks at one end only leaves a tie *)
+AddrKeys == <<AddrKey(1, 2), AddrKey(1, 1), AddrKey(2, 1), Rep(20, 0), Rep(20, 255), AddrKey(0, 9), AddrKey(9, 0)>>
 KeyMenu(t) == CASE t.k \in {"string", "varbytes"} -> StrKeys
                 [] t.k \in {"varuint", "u64"} -> NumKeys
                 [] t.k \in {"addr", "vaddr"} -> AddrKeys
@@ -364,14 +366,17 @@ Menu(t, s) ==
                 vs == Menu(t.val, s + 7)
                 rot == SB(s) % Len(ks)
             IN [z \in 1..Len(MapSizes) |->
-                   {<<ks[((i + rot + z) % Len(ks)) + 1], vs[((i + z) % Len(vs)) + 1]>> : i \in 1..MapSizes[z]}]
+                   {<<ks[((i + rot + z) % Len(ks)) + 1], vs[((i + z) % Len(vs)) + 1]>> : i \in 1..MapSizes[z]}] \o
+               (* the first keys of a key menu are the ones a sloppy comparator ties on: always one map that holds them together *)
+               <<{<<ks[i], vs[(i % Len(vs)) + 1]>> : i \in 1..(IF Thorough THEN Len(ks) ELSE 3)}>>
       [] t.k = "mapv" ->
             LET ks == KeyMenu(t.item.fs[t.kf].t)
                 is == StructMenu(t.item.fs, s + 7)
                 rot == SB(s) % Len(ks)
             IN [z \in 1..Len(MapSizes) |->
                    {LET key == ks[((i + rot + z) % Len(ks)) + 1]
-                    IN <<key, [is[((i + z) % Len(is)) + 1] EXCEPT ![t.kf] = key]>> : i \in 1..MapSizes[z]}]
+                    IN <<key, [is[((i + z) % Len(is)) + 1] EXCEPT ![t.kf] = key]>> : i \in 1..MapSizes[z]}] \o
+               <<{<<ks[i], [is[(i % Len(is)) + 1] EXCEPT ![t.kf] = ks[i]]>> : i \in 1..(IF Thorough THEN Len(ks) ELSE 3)}>>
       [] t.k = "struct" -> StructMenu(t.fs, s)
 
 Combo(fs, s, c) == Tup([i \in 1..Len(fs) |-> LET m == FMenu(fs[i], s + 17 * i)
@@ -502,20 +507,23 @@ TailLen(t, v) == IF HasTail(t) THEN Len(EncK(OPT, v[Len(v)])) ELSE 0
 
 MutantsOf(t, v, b) ==
     LET sites == Sites(t, v, 1, <<>>)
-    IN UNION {{LET mb == Splice(b, sites[x], m.pre)
-                   rs == DecK(t, mb, 1, FALSE)
-                   rl == DecK(t, mb, 1, TRUE)
-               IN [path |-> sites[x].path, kind |-> sites[x].kind, cls |-> m.cls, at |-> sites[x].at, w |-> sites[x].w,
-                   pre |-> m.pre, strict |-> rs.st, impl |-> rl.st, big |-> rl.st = "err" /\ rl.p = -1,
-                   val |-> IF rl.st = "ok" THEN <<rl.v>> ELSE <<>>,
-                   sval |-> IF rs.st = "ok" THEN <<rs.v>> ELSE <<>>]
-               : m \in PrefixMutants(sites[x])} : x \in 1..Len(sites)}
+    IN Flatten([x \in 1..Len(sites) |->
+          LET pm == PrefixMutants(sites[x])
+          IN [y \in 1..Len(pm) |->
+                LET mb == Splice(b, sites[x], pm[y].pre)
+                    rs == DecK(t, mb, 1, FALSE)
+                    rl == DecK(t, mb, 1, TRUE)
+                IN [path |-> sites[x].path, kind |-> sites[x].kind, cls |-> pm[y].cls, at |-> sites[x].at, w |-> sites[x].w,
+                    pre |-> pm[y].pre, strict |-> rs.st, impl |-> rl.st, big |-> rl.st = "err" /\ rl.p = -1,
+                    val |-> IF rl.st = "ok" THEN <<rl.v>> ELSE <<>>,
+                    sval |-> IF rs.st = "ok" THEN <<rs.v>> ELSE <<>>]]])
 
 (* cuts (proper prefixes) that a decoder accepts, with the value it returns; long encodings are cut at a few places only *)
 CutSet(b) == IF Len(b) <= CutBound THEN 0..(Len(b) - 1)
              ELSE {0, 1, 2, 3, 5, 9, Len(b) \div 2, Len(b) - 300, Len(b) - 2, Len(b) - 1}
 AcceptedCuts(t, b, len) ==
-    {c \in {[k |-> k, r |-> DecK(t, SubSeq(b, 1, k), 1, len)] : k \in CutSet(b)} : c.r.st # "err"}
+    LET ks == {k \in CutSet(b) : DecK(t, SubSeq(b, 1, k), 1, len).st # "err"}
+    IN {[k |-> k, r |-> DecK(t, SubSeq(b, 1, k), 1, len)] : k \in ks}
 
 (* a row is the tuple <<type index, row number, value>> (a tuple, so that TLC compares the type index first). *)
 (* Row number 0 is the per-type start state: the rows of a type are its successors, so that TLC's workers    *)
@@ -523,18 +531,26 @@ AcceptedCuts(t, b, len) ==
 RTy == row[1]
 RJ == row[2]
 RV == row[3]
-Init == row \in {<<i, 0, <<>>>> : i \in 1..NTypes}
+vars == <<row, ana>>
+
+Analyse(r) ==
+    LET t == TypeTable[r[1]].t
+        b == EncK(t, r[3])
+    IN [b |-> b, scuts |-> AcceptedCuts(t, b, FALSE), lcuts |-> AcceptedCuts(t, b, TRUE), muts |-> MutantsOf(t, r[3], b)]
+
+Init == row \in {<<i, 0, <<>>>> : i \in 1..NTypes} /\ ana = <<>>
 Emit == LET t == TypeTable[RTy].t
-            b == EncK(t, RV)
+            b == ana.b
         IN /\ (RJ = 1 => PrintT(<<"SCHEMA", ToJson([ty |-> RTy, name |-> TypeTable[RTy].name, t |-> t])>>))
            /\ PrintT(<<"ROW", ToJson([ty |-> RTy, name |-> TypeTable[RTy].name, j |-> RJ, v |-> RV, bytes |-> b,
                                       allcuts |-> Len(b) <= CutBound, cutset |-> IF Len(b) <= CutBound THEN {} ELSE CutSet(b),
-                                      scuts |-> {[k |-> c.k, st |-> c.r.st, v |-> <<c.r.v>>] : c \in AcceptedCuts(t, b, FALSE)},
-                                      lcuts |-> {[k |-> c.k, st |-> c.r.st, v |-> <<c.r.v>>] : c \in AcceptedCuts(t, b, TRUE)},
-                                      muts |-> MutantsOf(t, RV, b)])>>)
-Next == IF RJ = 0 THEN row' \in RowsOf(RTy)
-        ELSE UNCHANGED row /\ (IF EmitOn THEN Emit ELSE TRUE)
-Spec == Init /\ [][Next]_row
+                                      scuts |-> {[k |-> c.k, st |-> c.r.st, v |-> <<c.r.v>>] : c \in ana.scuts},
+                                      lcuts |-> {[k |-> c.k, st |-> c.r.st, v |-> <<c.r.v>>] : c \in ana.lcuts},
+                                      muts |-> ana.muts])>>)
+Next == IF RJ = 0 THEN /\ row' \in RowsOf(RTy)
+                       /\ ana' = Analyse(row')
+        ELSE UNCHANGED vars /\ (IF EmitOn THEN Emit ELSE TRUE)
+Spec == Init /\ [][Next]_vars
 
 (* ------------------------------------------------------------------------ *)
 (* the monitor                                                              *)
@@ -545,21 +561,26 @@ PropRoundTrip == RJ # 0 =>
     IN /\ DecK(t, b, 1, FALSE) = Ok(RV, Len(b) + 1)
        /\ DecK(t, b, 1, TRUE) = Ok(RV, Len(b) + 1)
 
+RECURSIVE HasMap(_)
+HasMap(t) == CASE t.k \in {"map", "mapv"} -> TRUE
+               [] t.k = "struct" -> \E i \in 1..Len(t.fs) : HasMap(t.fs[i].t)
+               [] OTHER -> FALSE
 PropCanonical == RJ # 0 =>
     LET t == TypeTable[RTy].t
-    IN \A pi \in 0..(NPerm - 1) : EncImpl(t, RV, pi) = EncK(t, RV)
+    IN \A pi \in 0..((IF HasMap(t) THEN NPerm ELSE 1) - 1) : EncImpl(t, RV, pi) = EncK(t, RV)
 
 Reencodes(t, r) == r.st = "ok" => LET d == DecK(t, EncK(t, r.v), 1, FALSE) IN d.st = "ok" /\ d.v = r.v
 
 PropTotal == RJ # 0 =>
     LET t == TypeTable[RTy].t
-        b == EncK(t, RV)
+        b == ana.b
         legacy == Len(b) - TailLen(t, RV)
-    IN /\ \A c \in AcceptedCuts(t, b, FALSE) :
+    IN /\ b = EncK(t, RV)
+       /\ \A c \in ana.scuts :
               HasTail(t) /\ c.k = legacy /\ c.r.st = "ok" /\ c.r.v = [RV EXCEPT ![Len(RV)] = <<>>]
        (* the code-shaped decoder differs from the reference only behind the optional tail *)
-       /\ \A c \in AcceptedCuts(t, b, TRUE) : HasTail(t) /\ c.k >= legacy
-       /\ \A m \in MutantsOf(t, RV, b) :
+       /\ \A c \in ana.lcuts : HasTail(t) /\ c.k >= legacy
+       /\ \A y \in 1..Len(ana.muts) : LET m == ana.muts[y] IN
               /\ m.strict = "ok" => Reencodes(t, [st |-> "ok", v |-> m.sval[1]])
               /\ (m.strict # m.impl => HasTail(t))
 =============================================================================
